@@ -602,6 +602,80 @@ def check_special_systems(res, which, builder):
         res.violation("C04|%s|special-system|%s|raises" % ("get_odesys" if builder == "get" else "_create_odesys", which), "%s on the %s system raised %s: %s" % (builder, which, type(e).__name__, e), case, "EXC %s" % type(e).__name__, None)
 
 
+def check_more_special(res, which, builder):
+    """further systems at the edge: (a) "text-repeat": a system read from text in which a substance is written several times on
+    one side, later occurrences carrying a number; (b) "tiny-coeff": non-integral net coefficients far below one / with many
+    decimals enter N as they are; (c) "zero-bound": a named constant with a default value bound to zero (and to other values)
+    through substitutions: the value bound is the value used; (d) "subclass": a user subclass of Reaction overriding rate_expr
+    (an efficiency factor): every builder uses the reactions' own rate expressions"""
+    import sympy
+    from collections import OrderedDict
+    from chempy import Reaction, ReactionSystem, Substance
+    from chempy.kinetics.ode import get_odesys, _create_odesys
+    from chempy.kinetics.rates import MassAction
+    from chempy.util._expr import Symbol as ESymbol
+
+    case = dict(layer="H", what="more-special", which=which, builder=builder)
+    res.states += 1
+    res.transitions += 1
+    res.nontrivial += 1
+    res.evaluations += 1
+    noint = [c for c in Reaction.default_checks if c != "all_integral"]
+    bname = "get_odesys" if builder == "get" else "_create_odesys"
+    kw_get = dict(include_params=False)
+    pvals = {"ka": 7, "kb": 3}
+    tol = 0
+    try:
+        if which == "text-repeat":
+            rsys = ReactionSystem.from_string("A + 2 A -> B; 'ka'\nB + B + 1 B -> C + 2 C; 'kb'", "A B C", substance_factory=Substance)
+            conc = {"A": 9, "B": 5, "C": 11}
+            r1, r2 = 7 * 9 ** 3, 3 * 5 ** 3
+            exp = {"A": -3 * r1, "B": r1 - 3 * r2, "C": 3 * r2}
+        elif which == "tiny-coeff":
+            rsys = ReactionSystem([Reaction({"A": 1}, {"B": 2.5e-13}, MassAction(ESymbol(unique_keys=("ka",))), checks=noint),
+                                   Reaction({"C": 1}, {"D": 1 / 3e6}, MassAction(ESymbol(unique_keys=("kb",))), checks=noint)], "A B C D", substance_factory=Substance)
+            conc = {"A": 9, "B": 5, "C": 11, "D": 13}
+            exp = {"A": -63, "B": 2.5e-13 * 63, "C": -33, "D": (1 / 3e6) * 33}
+            tol = 1e-13
+        elif which.startswith("zero-bound"):
+            val = {"zero-bound:0": 0, "zero-bound:0.0": 0.0, "zero-bound:2": 2, "zero-bound:default": 0.25}[which]
+            rsys = ReactionSystem([Reaction({"A": 1}, {"B": 1}, MassAction([1.5], unique_keys=["ka"])),
+                                   Reaction({"B": 1}, {"C": 1}, MassAction([0.25], unique_keys=["kBC"]))], "A B C", substance_factory=Substance)
+            conc = {"A": 9, "B": 5, "C": 11}
+            kw_get = dict(include_params=(builder == "get"), substitutions={"kBC": val})
+            r1, r2 = (sympy.Rational(3, 2) if builder == "get" else 7) * 9, sympy.nsimplify(val) * 5
+            exp = {"A": -r1, "B": r1 - r2, "C": r2}
+            builder = "get"
+        else:
+            class EfficiencyReaction(Reaction):
+                def rate_expr(self):
+                    return super(EfficiencyReaction, self).rate_expr() * self.data["efficiency"]
+
+            rsys = ReactionSystem([EfficiencyReaction({"A": 1}, {"B": 1}, MassAction(ESymbol(unique_keys=("ka",))), data={"efficiency": 2}),
+                                   EfficiencyReaction({"B": 1}, {"C": 1}, MassAction(ESymbol(unique_keys=("kb",))), data={"efficiency": 4})], "A B C", substance_factory=Substance)
+            conc = {"A": 9, "B": 5, "C": 11}
+            r1, r2 = 2 * 7 * 9, 4 * 3 * 5
+            exp = {"A": -r1, "B": r1 - r2, "C": r2}
+        odesys = (get_odesys(rsys, **kw_get) if builder == "get" else _create_odesys(rsys))[0]
+        bind = {d: conc[n] for d, n in zip(odesys.dep, odesys.names)}
+        bind[odesys.indep] = 1000
+        for sym, pn in zip(odesys.params, odesys.param_names):
+            bind[sym] = pvals.get(pn, sympy.Symbol("UNBOUND_" + str(pn)))
+        got = {n: sympy.sympify(e).subs(bind) for n, e in zip(odesys.names, odesys.exprs)}
+        if tol:
+            ok = all(got[n].is_number and abs(float(got[n]) - exp[n]) <= tol * abs(exp[n]) for n in exp)
+        else:
+            ok = all(sympy.simplify(sympy.nsimplify(got[n]) - exp[n]) == 0 for n in exp)
+        ok = ok and list(odesys.names) == list(rsys.substances)
+        res.outcomes["more-special:%s:%s" % (which.split(":")[0], "ok" if ok else "WRONG")] += 1
+        if not ok:
+            res.violation("C04|%s|special-system|%s|rhs-value" % (bname, which), "%s on the %s system: f = %s at %r, N^T r = %s" % (
+                bname, which, {k: str(v) for k, v in got.items()}, conc, {k: str(v) for k, v in exp.items()}), case, {k: str(v) for k, v in got.items()}, {k: str(v) for k, v in exp.items()})
+    except Exception as e:
+        res.outcomes["more-special:%s:raises:%s" % (which, type(e).__name__)] += 1
+        res.violation("C04|%s|special-system|%s|raises" % (bname, which), "%s on the %s system raised %s: %s" % (bname, which, type(e).__name__, e), case, "EXC %s" % type(e).__name__, None)
+
+
 def check_large(res, variant, builder):
     """the 13-substance, 16-20-reaction system of C03's layer BIG (a hub substance in up to 17 reactions, autocatalysis, inactive
     parts) through both builders: one equation per substance in substance order, equal to N^T r"""
@@ -759,6 +833,9 @@ def run_chunk(chunk, tier):
             for which in ("order1/2", "order3/2", "order0.5", "time-key"):
                 for builder in ("get", "create"):
                     check_special_systems(res, which, builder)
+            for which in ("text-repeat", "tiny-coeff", "zero-bound:0", "zero-bound:0.0", "zero-bound:2", "zero-bound:default", "subclass"):
+                for builder in ("get", "create"):
+                    check_more_special(res, which, builder)
         if i == 1:
             for kind, nargs in (("Arrhenius", 2), ("Eyring", 3)):
                 for nnamed in range(nargs + 1):
@@ -809,6 +886,8 @@ def replay(case):
             check_large(res, case["variant"], case["builder"])
         elif case.get("what") == "expanded-equilibrium":
             check_expanded_equilibrium(res, case["builder"], case["which"])
+        elif case.get("what") == "more-special":
+            check_more_special(res, case["which"], case["builder"])
         elif case.get("what") == "special":
             check_special_systems(res, case["which"], case["builder"])
         elif case.get("what") == "partial-names":
